@@ -1,5 +1,5 @@
 (** C17 — f32 and f64 instantiations agree to single precision and in all frame counts.
-    Statements only; proofs in Proofs/CtlP.v.  Proved: the control half (identical
+    Statements only; proofs in Proofs/CtlP.v, Proofs/CtlFftP.v.  Proved: the control half (identical
     input_frames_next/output_frames_next sequences and returned counts): the new control record and
     the counts of a successful process_into_buffer are a function of the old control record and
     of buffer *lengths*; no sample value and no sample type enters them.  The closeness of the
@@ -7,7 +7,9 @@
     every run and not proved.                                                               *)
 From Coq Require Import ZArith List Bool.
 From Rubato.Model Require Import Num Base Validate Async.
-From Rubato.Proofs Require Import CtlP.
+From Rubato.Model Require Import Fft.
+From Rubato.Gen Require Import SynchroGen.
+From Rubato.Proofs Require Import CtlP CtlFftP.
 
 Theorem C17_control_function_of_ctl : forall (C : CNum) (S : SNum C) St (A : arch St) s wi wo m s' c o,
   pib A s wi wo m = Ok (s', c, o) ->
@@ -40,6 +42,32 @@ Proof.
   - intros. apply so_ctl_same; assumption.
 Qed.
 
+(** the three synchronous types: the new control record and the counts are a function of the old control record alone
+    ([xi_ctl_next], [xo_ctl_next], [xio_ctl_next] mention neither the sample type nor the spectral core), so two
+    instantiations that start from equal control records return the same counts for ever *)
+Theorem C17_fft_control_function_of_ctl : forall (C : CNum) (S : SNum C) u,
+  (forall (s : @fstate C S FftFixedIn) wi wo m s' c o, xi_pib u s wi wo m = Ok (s', c, o) -> (fs_ctl s', c) = xi_ctl_next (fs_ctl s)) /\
+  (forall (s : @fstate C S FftFixedOut) wi wo m s' c o, xo_pib u s wi wo m = Ok (s', c, o) -> (fs_ctl s', c) = xo_ctl_next (fs_ctl s)) /\
+  (forall (s : @fstate C S FftFixedInOut) wi wo m s' c o, xio_pib u s wi wo m = Ok (s', c, o) -> (fs_ctl s', c) = xio_ctl_next (fs_ctl s)).
+Proof. intros C S u. split; [|split]; [exact (@xi_pib_ctl C S u) | exact (@xo_pib_ctl C S u) | exact (@xio_pib_ctl C S u)]. Qed.
+
+Theorem C17_fft_control_independent_of_T : forall (C : CNum) (S1 S2 : SNum C) u1 u2,
+  (forall (s1 : @fstate C S1 FftFixedIn) (s2 : @fstate C S2 FftFixedIn) wi1 wo1 m1 wi2 wo2 m2 s1' s2' c1 c2 o1 o2,
+     fs_ctl s1 = fs_ctl s2 ->
+     @xi_pib C S1 u1 s1 wi1 wo1 m1 = Ok (s1', c1, o1) -> @xi_pib C S2 u2 s2 wi2 wo2 m2 = Ok (s2', c2, o2) ->
+     fs_ctl s1' = fs_ctl s2' /\ c1 = c2) /\
+  (forall (s1 : @fstate C S1 FftFixedOut) (s2 : @fstate C S2 FftFixedOut) wi1 wo1 m1 wi2 wo2 m2 s1' s2' c1 c2 o1 o2,
+     fs_ctl s1 = fs_ctl s2 ->
+     @xo_pib C S1 u1 s1 wi1 wo1 m1 = Ok (s1', c1, o1) -> @xo_pib C S2 u2 s2 wi2 wo2 m2 = Ok (s2', c2, o2) ->
+     fs_ctl s1' = fs_ctl s2' /\ c1 = c2) /\
+  (forall (s1 : @fstate C S1 FftFixedInOut) (s2 : @fstate C S2 FftFixedInOut) wi1 wo1 m1 wi2 wo2 m2 s1' s2' c1 c2 o1 o2,
+     fs_ctl s1 = fs_ctl s2 ->
+     @xio_pib C S1 u1 s1 wi1 wo1 m1 = Ok (s1', c1, o1) -> @xio_pib C S2 u2 s2 wi2 wo2 m2 = Ok (s2', c2, o2) ->
+     fs_ctl s1' = fs_ctl s2' /\ c1 = c2).
+Proof. exact fft_control_independent_of_sample_type. Qed.
+
 Print Assumptions C17_control_function_of_ctl.
 Print Assumptions C17_control_independent_of_T.
 Print Assumptions C17_async_types.
+Print Assumptions C17_fft_control_function_of_ctl.
+Print Assumptions C17_fft_control_independent_of_T.
